@@ -133,7 +133,7 @@ def atom_case(i, cps):
 
 OPERANDS = [("a", "a"), ("b1", "b1"), ("foo", "foo"), ("'A'", "A"), ("'a b'", "a b"), ("''", ""), ("[]", "[]"), ("'{}'", "{}"),
             ("'\\n'", "\n"), ("é", "é"), ("#", "#"), ("'$a'", "$a"), ("'a$'", "a$"), ("'0'", "0"), ("'a''b'", "a'b"),
-            ("'_x'", "_x"), ("!", "!"), ("a0", "a0"), ("'a+'", "a+"), ("&", "&"), ("'.a'", ".a"), ("'#.'", "#."), ("'\\\\'", "\\")]
+            ("'_x'", "_x"), ("!", "!"), ("a0", "a0"), ("'a+'", "a+"), ("&", "&"), ("'.a'", ".a"), ("'#.'", "#."), ("'\\\\\\\\'", "\\\\")]
 NUMBERS = ["0", "1", "7", "10", "123", "100000000000000000000", "00"]
 OPNAMES = [("foo", "foo"), ("a1", "a1"), ("op0", "op0"), ("'A'", "A"), ("'a b'", "a b"), ("'a+'", "a+"), ("'+a'", "+a"),
            ("++", "++"), ("-*", "-*"), ("=.", "=."), ("\\-", "\\-"), ("\\\\", "\\\\"), ("#", "#"), ("***", "***"), ("--->", "--->"),
@@ -211,14 +211,15 @@ GOLD = [
     ("f(:-)", "f(:-)", ["name:f", "openct", "name::-", "punct:)"]),
     ("1 rdiv 2", "rdiv(1,2)", ["int:1", "name:rdiv", "int:2"]),
     ("a mod b", "mod(a,b)", ["name:a", "name:mod", "name:b"]),
-    ("a= \\+b", "=(a,\\+(b))", ["name:a", "name:=", "name:\\+", "name:b"]),
+    ("a=(\\+b)", "=(a,\\+(b))", ["name:a", "name:=", "openct", "name:\\+", "name:b", "punct:)"]),
+    ("a= \\b", "=(a,\\(b))", ["name:a", "name:=", "name:\\", "name:b"]),
     ("2** -1", "**(2,-1)", ["int:2", "name:**", "name:-", "int:1"]),
     ("2^ -1", "^(2,-1)", ["int:2", "name:^", "name:-", "int:1"]),
     ("a:b:c", ":(a,:(b,c))", ["name:a", "name::", "name:b", "name::", "name:c"]),
     ("1.0e10", "1.0e10", None),
     ("[a|b]", "'.'(a,b)", ["punct:[", "name:a", "punct:|", "name:b", "punct:]"]),
     ("{a}", "{}(a)", ["punct:{", "name:a", "punct:}"]),
-    ("'{}'(a,b)", "{}(a,b)", ["name:{}", "openct", "name:a", "punct:,", "name:b", "punct:)"]),
+    ("'{}'(a,b)", "{}(a,b)", ["punct:{", "punct:}", "openct", "name:a", "punct:,", "name:b", "punct:)"]),
     ("a,b", "','(a,b)", ["name:a", "punct:,", "name:b"]),
     ("','", "','", ["name:,"]),
     ("'|'", "'|'", ["name:|"]),
@@ -228,14 +229,14 @@ GOLD = [
     ("- a", "-(a)", ["name:-", "name:a"]),
     ("-(2)^2", "^(-(2),2)", None),
     ("- (2^2)", "-(^(2,2))", None),
-    ("1 = '\\\\'", "=(1,'\\\\')", ["int:1", "name:=", "name:\\"]),
+    ("1 = '\\\\'", "=(1,'\\\\')", ["int:1", "name:=", "openct", "name:\\", "punct:)"]),
     ("0'a", "0'a", ["int:97"]),
     ("'0'''", "'0'''", ["name:0'"]),
     ("x = 'A'", "=(x,'A')", ["name:x", "name:=", "name:A"]),
     ("[] = '[]'", "=([],'[]')", ["punct:[", "punct:]", "name:=", "punct:[", "punct:]"]),
-    ("'$VAR'(1) + 'B'", "+('$VAR'(1),'B')", ["var:B", "name:+", "name:B"]),
+    ("f('$VAR'(1)) + 'B'", "+(f(x),'B')", ["name:f", "openct", "name:x", "punct:)", "name:+", "name:B"]),
     ("a = [b]", "=(a,[b])", ["name:a", "name:=", "punct:[", "name:b", "punct:]"]),
-    ("a- (b:-c)", "-(a,:-(b,c))", ["name:a", "name:-", "punct:(", "name:b", "name::-", "name:c", "punct:)"]),
+    ("a- (b:-c)", "-(a,:-(b,c))", ["name:a", "name:-", "openct", "name:b", "name::-", "name:c", "punct:)"]),
     ("a mod (b,c)", "mod(a,','(b,c))", ["name:a", "name:mod", "punct:(", "name:b", "punct:,", "name:c", "punct:)"]),
 ]
 
